@@ -1492,7 +1492,8 @@ int _vnadata_load_touchstone(vnadata_internal_t *vdip, FILE *fp,
 	    goto out;
 	}
 	if (findex != 0 &&
-		tps.u.tps_double <= vnadata_get_frequency(vdp, findex - 1)) {
+		tps.tps_frequency_multiplier * tps.u.tps_double <=
+		vnadata_get_frequency(vdp, findex - 1)) {
 	    _vnadata_error(vdip, VNAERR_SYNTAX, "%s (line %d) error: "
 		    "frequencies must be in increasing order",
 		    tps.tps_filename, tps.tps_line);
